@@ -20,6 +20,7 @@ LEVEL_TEXT = (
     "@state_active is evaluated on the triggering event's values"
     "; the reference-date argument of every range end is the range start (dated starts with time-only ends); @state_active accepts exactly on Python truth of any value in both subsystems and is evaluated on the occurrence's own values; the legacy loop judges a queued occurrence at a clock reading made after it arrived"
     '; @time_active checks the wall-clock instant of a time trigger and the current time for every other trigger type; the guards of a function are asked and the acceptance recorded under one lock; weekday ranges match from their start day to their end day'
+    "; guards are still consulted for an occurrence dispatched during stop(); attributes of the occurrence's entity are read from its own value"
 )
 LEVEL_NOTE = "date/time parsing and croniter are summarised by abstract instants (their arithmetic is not decided); instants are concrete datetimes on a small grid"
 TECHNIQUE = "abstract interpretation of timer_active_check / TimeActiveDecorator.handle_dispatch on an exhaustive finite model of instants and spec lists (truth-table comparison), who-may-call, def-use of guard inputs"
